@@ -497,8 +497,13 @@ static J gen_line(Chooser &ch)
   else if (kind == "uniform composition") { m["model"] = "uniform"; m["compositions"] = J::arr({J(0), J(2)}); m["fractions"] = J::arr({J(ch.lattice(0, 1, 0.125)), J(ch.lattice(0, 1, 0.125))}); if (ch.flip()) { m[lo_key] = lo; m[hi_key] = hi; } }
   else
     {
-      m["model"] = "smooth"; m["compositions"] = J::arr({J(1)});
-      m[fault ? "center fractions" : "top fractions"] = J::arr({J(ch.lattice(0, 1, 0.125))}); m[fault ? "side fractions" : "bottom fractions"] = J::arr({J(ch.lattice(0, 1, 0.125))});
+      // 1..3 compositions, listed in any order (labels and list positions differ), each with its own pair of end members
+      m["model"] = "smooth";
+      const std::vector<int> labels = ch.pick<std::vector<int>>({{1}, {1}, {1, 0}, {0, 2}, {2, 1, 0}, {0, 1, 2}, {2, 0}});
+      J cl = J::arr(), fa = J::arr(), fb = J::arr();
+      for (int l : labels) { cl.push(J(l)); fa.push(J(ch.lattice(0, 1, 0.125))); fb.push(J(ch.lattice(0, 1, 0.125))); }
+      m["compositions"] = cl;
+      m[fault ? "center fractions" : "top fractions"] = fa; m[fault ? "side fractions" : "bottom fractions"] = fb;
       if (fault) m["side distance fault center"] = ch.lattice(0.5 * half, 1.0 * half, 1e3); else m["max distance slab top"] = ch.lattice(0.5 * half, 1.0 * half, 1e3);
     }
   if (kind != "smooth composition" && ch.chance(40)) m["operation"] = ch.pick<std::string>({"add", "subtract"});
@@ -590,12 +595,18 @@ static Result check_line(const J &c)
         {
           // smooth: the documentation names the two end members and a hyperbolic tangent in between; asserted: the value stays
           // between the two fractions, and equals the first within 1e-3 of the range at the model's start of the transition.
-          const double a = m.at(fault ? "center fractions" : "top fractions")[0].num(), b = m.at(fault ? "side fractions" : "bottom fractions")[0].num();
           const double end = m.at(fault ? "side distance fault center" : "max distance slab top").num();
           const bool in_sm = dist >= 0 && dist <= end;
-          if (!in_sm) { if (out[2] != 0 && !fault) return Result::fail("smooth-outside-range", "smooth composition paints " + fmt(out[2]) + " outside its distance range"); continue; }
-          if (out[2] < std::min(a, b) - 1e-9 || out[2] > std::max(a, b) + 1e-9)
-            return Result::fail(fault ? "fault-smooth-outside-end-members" : "slab-smooth-outside-end-members", c.at("type").str() + " smooth composition returns " + fmt(out[2]) + " at distance " + fmt(dist) + " of " + fmt(end) + ", outside the range of its two end members " + fmt(a) + " and " + fmt(b) + "; model " + m.dump());
+          if (m.at("compositions").size() > 1) r.classes.push_back("smooth composition with several compositions in list order != label order");
+          for (size_t ci = 0; ci < m.at("compositions").size(); ++ci)
+            {
+              const size_t label = static_cast<size_t>(m.at("compositions")[ci].num());
+              const double a = m.at(fault ? "center fractions" : "top fractions")[ci].num(), b = m.at(fault ? "side fractions" : "bottom fractions")[ci].num();
+              const double got = out[1 + label];
+              if (!in_sm) { if (got != 0 && !fault) return Result::fail("smooth-outside-range", "smooth composition paints " + fmt(got) + " outside its distance range"); continue; }
+              if (got < std::min(a, b) - 1e-9 || got > std::max(a, b) + 1e-9)
+                return Result::fail(fault ? "fault-smooth-outside-end-members" : "slab-smooth-outside-end-members", c.at("type").str() + " smooth composition returns " + fmt(got) + " for composition " + std::to_string(label) + " at distance " + fmt(dist) + " of " + fmt(end) + ", outside the range of its two end members " + fmt(a) + " and " + fmt(b) + "; model " + m.dump());
+            }
         }
     }
   return r;
